@@ -10,15 +10,20 @@ use rxrust::prelude::*;
 fn all_logs() -> Vec<Vec<Ev>> {
   world::w(|w| w.probes.iter().map(|p| p.log.iter().map(|r| r.ev.clone()).collect()).collect())
 }
+/// the driver step during which each notification arrived (all zero where the harness does not count steps)
+fn all_steps() -> Vec<Vec<u64>> {
+  world::w(|w| w.probes.iter().map(|p| p.log.iter().map(|r| r.step).collect()).collect())
+}
 
 fn diff(name: &str, f: impl Fn(bool)) {
   let (a, b, diverged) = e::twice(
     |threads| {
       f(threads);
-      all_logs()
+      (all_logs(), all_steps())
     },
     || world::reset_world(),
   );
+  let ((a, sa), (b, sb)) = (a, b);
   if diverged {
     e::fail(&format!("local-vs-threads/{}/control-flow-diverged", name), || "the thread-safe form asked for different harness choices than the local form (it reached a different state)".to_string());
   }
@@ -32,6 +37,11 @@ fn diff(name: &str, f: impl Fn(bool)) {
       Ok(t) => e::check(t, &key, detail),
       Err(why) => e::fail(&key, || format!("{} ; {}", why, detail())),
     }
+  }
+  // the same notifications, and each during the same action of the driver (a source call, an executor run, a
+  // clock move): a form that delivers inline what the other one hands to the scheduler differs here
+  if sa != sb {
+    e::fail(&format!("local-vs-threads/{}/delivered-during-a-different-step", name), || format!("driver steps of the deliveries: local {:?} ; threads {:?}", sa, sb));
   }
   e::cover("c18-diff-path-complete");
 }
@@ -63,6 +73,10 @@ pub fn harnesses() -> Vec<HarnessDef> {
   add("c18_flatten", "merge_all / concat_all / flatten / flat_map / concat_map vs their _threads forms", |t| format!("{} steps, 3 inners", if t { 7 } else { 6 }), Box::new(|t| {
     let n = if t { 7 } else { 6 };
     diff("flatten", |th| hj::c05_flatten(n, 3, th))
+  }), 2_000_000, 30_000_000);
+  add("c18_flatten_cut", "the flattening operators vs their _threads forms with unsubscribe() at every step: whatever still arrives afterwards shows in one form only", |t| format!("{} steps, 3 inners", if t { 6 } else { 5 }), Box::new(|t| {
+    let n = if t { 6 } else { 5 };
+    diff("flatten-cut", |th| hj::c05_flatten_x(n, 3, th, true))
   }), 2_000_000, 30_000_000);
   add("c18_move", "observe_on / delay / delay_subscription / subscribe_on vs _threads forms on the same executor discipline", |t| format!("<= {} items", if t { 3 } else { 2 }), Box::new(|t| {
     let n = if t { 3 } else { 2 };
